@@ -73,6 +73,12 @@ def nested_templates():
 
 
 def run(ctx, log):
+    # enumerated families decided by Sem.v: how function / loop bodies end; names that live in several name spaces
+    extra_sem_families = []
+    extra_sem_families += progcheck.nested_names_family(ctx.quick)
+    progcheck.pipeline(ctx, extra_sem_families, log, budget=20000, label="endings-and-names", shard_size=120)
+    for s_ in extra_sem_families:
+        ctx.seen(("family", s_))
     # the same small programs at every size around the widths the implementation encodes things in (closed-form results)
     progcheck.run_scale(ctx, log, ['locals'])
     rng = ctx.rng
